@@ -24,6 +24,23 @@ def _ones_is_one(t):
     return T.subst(t, m) if m else t
 
 
+def _in_comp(sub, value, key) -> bool:
+    """the table of new inputs built in one expression: {name: <delayed inputs> for name in ...}"""
+    for e in sub.events:
+        for t in (e.term,) + tuple(e.args or ()):
+            for x in T.walk(t) if t is not None else ():
+                if x[0] == "comp" and x[1] == "dict" and x[2][0] == "tuple" and len(x[2][1]) == 2 and not x[4]:
+                    k_, v_ = x[2][1]
+                    els = [y for y in T.walk(k_) if y[0] == "elem"]
+                    if els and T.subst(v_, {els[0]: _elem_of(key)}) == value and T.subst(k_, {els[0]: _elem_of(key)}) == key:
+                        return True
+    return False
+
+
+def _elem_of(key):
+    return next((y for y in T.walk(key) if y[0] == "elem"), key)
+
+
 def run(chk: Check, model):
     chk.rule("C10.window", "window arithmetic (A7): the extension is W = int(ceil(sender rate * (max - min))); apply_window allocates window + W entries, apply_delay "
                            "returns the slice [idx_max - (n - W), n - W) of all four buffers, i.e. exactly `window` entries, in every interp mode; both use the sender's rate")
@@ -237,16 +254,19 @@ def run(chk: Check, model):
         a, fo_ = ads[0], fos[0][0]
         prev = fos[0][1].get("delay_dist")
         el = [x for x in T.walk(prev or T.NONE) if x[0] == "elem"]
-        ok = prev is not None and bool(el) and prev == T.mk_attr(T.mk_index(T.mk_attr(T.mk_index(S("graph_state.step_state"), S("node.name")), "inputs"), T.mk_index(el[0], T.ZERO)), "delay_dist")
+        # the input's name and connection: the (name, connection) item of node.inputs.items(), or - iterating the names - the name and node.inputs[name]
+        by_key = bool(el) and el[0][1] == S("node.inputs")
+        key_t = (el[0] if by_key else T.mk_index(el[0], T.ZERO)) if el else T.NONE
+        ok = prev is not None and bool(el) and prev == T.mk_attr(T.mk_index(T.mk_attr(T.mk_index(S("graph_state.step_state"), S("node.name")), "inputs"), key_t), "delay_dist")
         chk.add("C10.apply", "carried distribution", bool(ok), f"the undelayed input state carries {T.show(prev)[:160] if prev else None}, expected the previous step's ss.inputs[input_name].delay_dist", chk.loc(f_ui, fo_.node))
-        conn = T.mk_index(el[0], T.ONE) if el else T.NONE
+        conn = (T.mk_index(S("node.inputs"), el[0]) if by_key else T.mk_index(el[0], T.ONE)) if el else T.NONE
         ok = a.recv == T.mk_attr(fo_.term, "delay_dist") and a.args == (T.mk_attr(T.mk_attr(conn, "output_node"), "rate"), fo_.term, S("timings_node.ts_start"))
         chk.add("C10.apply", "apply_delay(sender rate, undelayed inputs, step start) on the carried distribution", ok, f"apply_delay is called on {T.show(a.recv)[:80]} with {[T.show(x)[:60] for x in a.args]}", chk.loc(f_ui, a.node))
         eqs = [e for e in sub.events if e.kind == "call" and e.name.endswith(".equivalent")]
         ok = len(eqs) == 1 and eqs[0].recv == T.mk_attr(conn, "delay_dist") and eqs[0].args == (T.mk_attr(fo_.term, "delay_dist"),) and flow.equivalent(a.guard, eqs[0].term)
         chk.add("C10.apply", "applied whenever the distributions are equivalent (else raise)", ok, "apply_delay must run for every input unless equivalent() fails, which must raise", chk.loc(f_ui))
         st = [e for e in sub.events if e.kind == "store_sub" and e.term == a.term]
-        chk.add("C10.apply", "the delayed inputs are what the step sees", len(st) == 1 and st[0].term == a.term and st[0].key == T.mk_index(el[0], T.ZERO), "new_inputs[input_name] must be the delayed input state", chk.loc(f_ui))
+        chk.add("C10.apply", "the delayed inputs are what the step sees", (len(st) == 1 and st[0].term == a.term and st[0].key == key_t) or _in_comp(sub, a.term, key_t), "new_inputs[input_name] must be the delayed input state", chk.loc(f_ui))
     else:
         chk.unknown("C10.apply", "apply_delay site", f"expected one apply_delay and one from_outputs per input, found {len(ads)}/{len(fos)}", chk.loc(f_ui))
     f_eq = model.func(f"{B}.equivalent")
